@@ -102,17 +102,17 @@ impl<K: Ord, V: Val<A>, A: Ord + Hash> ResetRemove<A> for Map<K, V, A> {
             })
             .collect();
 
-        self.deferred = mem::take(&mut self.deferred)
-            .into_iter()
-            .filter_map(|(mut rm_clock, key)| {
-                rm_clock.reset_remove(clock);
-                if rm_clock.is_empty() {
-                    None // this deferred remove has been forgotten
-                } else {
-                    Some((rm_clock, key))
-                }
-            })
-            .collect();
+        // Two deferred removes may end up with the same clock once `clock` has been
+        // subtracted from them; their key sets must be united, not overwritten.
+        let mut deferred: HashMap<VClock<A>, BTreeSet<K>> = HashMap::new();
+        for (mut rm_clock, mut keys) in mem::take(&mut self.deferred) {
+            rm_clock.reset_remove(clock);
+            if !rm_clock.is_empty() {
+                // else: this deferred remove has been forgotten
+                deferred.entry(rm_clock).or_default().append(&mut keys);
+            }
+        }
+        self.deferred = deferred;
 
         self.clock.reset_remove(clock);
     }
